@@ -149,6 +149,10 @@ EDITS = {
 
             for left_value in left_values:
                 output = copy(sources)"""), ['C05']),
+    'cache-keys-as-comprehension': (replace_text('symbolic', """        self._cache_.keys = [v.id_ for v in combined_vars.filter(lambda v: not isinstance(v.value, Literal))]""",
+                                                 """        self._cache_.keys = [v.id_ for v in combined_vars if not isinstance(v.value, Literal)]"""), ['C05', 'C16']),
+    'right-cache-keys-inlined': (replace_text('symbolic', """        right_vars = self.right._unique_variables_.filter(lambda v: not isinstance(v, Literal))
+        self.right_cache.keys = [v.id_ for v in right_vars]""", """        self.right_cache.keys = [v.id_ for v in self.right._unique_variables_.filter(lambda v: not isinstance(v, Literal))]"""), ['C05', 'C02']),
     'hybrid-new-else-dropped': (replace_text('predicate', """        if in_symbolic_mode():
             return symbolic_new(symbolic_cls, *args, **kwargs)
         else:
